@@ -63,6 +63,9 @@ SPECIAL = [
     'c1ccc(Cl(=O)(=O)=O)cc1', 'CC(Cl(=O)=O)C', 'C(Br(F)(F)F)C', 'OC(Cl=O)C', 'C1CC(Cl1)C', 'C1CC(Br1)C', 'CC(I(C)C)C',
     'C(Cl(C)C)(Br(C)C)C', 'CCl(C)C', 'C(ClC)C', 'C(BrCC)C', 'C(IC)C', 'C(Cl=O)F', 'FC(Cl(F)F)Br(F)F', 'C(Cl)(Br(=O)=O)C',
     'OCl(=O)(=O)=O', 'C(Br1CCC1)C', 'N(Cl(C)C)C', 'C(=Cl(C)C)C', 'C(#ClC)C',
+    # bracketed aromatic atoms of every aromatic element, plain and labelled (same pi demand as the bare atom)
+    'c1cc[p]cc1', 'c1c[p]cc[p]1', 'c1cc[n]cc1', 'c1c[n]cc[n]1', 'c1cc[o]c1', 'c1cc[s]c1', 'c1cc[31p]cc1', 'C[p]1cccc1',
+    'c1cc[pH]c1', 'c1cc[p]c2ccccc12', '[p]1ccccc1', 'c1c[p]c[p]c1', 'c1cc[se]c1', 'c1cc[te]c1', 'c1cc[as]cc1', 'c1cc[b]cc1',
     # bracket aromatic atoms without H (isotope labels): same pi demand as the bare atom
     'c1cc[15n]cc1', 'c1c[15n]cc[15n]1', 'c1cc[15n]c1C', '[15n]1ccccc1', 'c1cc[14c]cc1', '[13c]1[13c][13c][13c][13c][13c]1',
     'c1cc[15n]c2ccccc12', 'c1c[15n]c[15n]c1', 'c1cc[15nH]c1', 'C[15n]1cccc1', 'c1cc[17o]c1', 'c1cc[33s]c1', 'c1cc[31p]cc1',
